@@ -1,6 +1,7 @@
 package gl
 
 import (
+	"sort"
 	"fmt"
 	"strings"
 	"sync"
@@ -62,6 +63,58 @@ type Program struct {
 	StrictCond bool
 
 	req map[string]bool // last path component of every Require of the file (set by NewProgram)
+	// mods[i] is the module (last path component of its Require) the definition Defs[i] was loaded from;
+	// "" for the definitions of the file itself. Imported definitions come first and are indexed under
+	// their qualified name mod.Name only.
+	mods     []string
+	imported map[string]bool
+}
+
+// NewProgramWithImports is NewProgram for a file together with the translated files of the packages it
+// Requires (resolve returns nil for modules that were not translated in the same batch). An imported
+// module's definitions are visible to the file as mod.Name and to each other unqualified.
+func NewProgramWithImports(f *File, resolve func(mod string) *File) *Program {
+	p := &Program{File: f, Index: map[string][]int{}, req: fileRequires(f), imported: map[string]bool{}}
+	var load func(file *File, depth int)
+	load = func(file *File, depth int) {
+		if depth > 8 {
+			return
+		}
+		var mods []string
+		for m := range fileRequires(file) {
+			mods = append(mods, m)
+		}
+		sort.Strings(mods)
+		for _, m := range mods {
+			if p.imported[m] {
+				continue
+			}
+			mf := resolve(m)
+			if mf == nil {
+				continue
+			}
+			p.imported[m] = true
+			load(mf, depth+1)
+			for i := range mf.Items {
+				it := &mf.Items[i]
+				if it.Kind == "def" || it.Kind == "notation" {
+					p.Index[m+"."+it.Name] = append(p.Index[m+"."+it.Name], len(p.Defs))
+					p.Defs = append(p.Defs, it)
+					p.mods = append(p.mods, m)
+				}
+			}
+		}
+	}
+	load(f, 0)
+	for i := range f.Items {
+		it := &f.Items[i]
+		if it.Kind == "def" || it.Kind == "notation" {
+			p.Index[it.Name] = append(p.Index[it.Name], len(p.Defs))
+			p.Defs = append(p.Defs, it)
+			p.mods = append(p.mods, "")
+		}
+	}
+	return p
 }
 
 func NewProgram(f *File) *Program {
@@ -355,6 +408,15 @@ func (in *Interp) global(th *Thread, name string, env *Env, scope int) Val {
 	if v, ok := env.lookup(name, true); ok {
 		return v
 	}
+	if scope >= 0 && scope < len(in.Prog.mods) && in.Prog.mods[scope] != "" && !strings.Contains(name, ".") {
+		// inside an imported module its own definitions are referred to unqualified
+		q := in.Prog.Index[in.Prog.mods[scope]+"."+name]
+		for k := len(q) - 1; k >= 0; k-- {
+			if q[k] < scope {
+				return in.defValue(th, q[k])
+			}
+		}
+	}
 	idxs := in.Prog.Index[name]
 	for k := len(idxs) - 1; k >= 0; k-- {
 		if idxs[k] < scope {
@@ -390,6 +452,9 @@ func (in *Interp) global(th *Thread, name string, env *Env, scope int) Val {
 		// a qualified name m.X: m is a module the file requires (another translated package, which the model
 		// does not have: unsupported), a module of the GooseLang library, or nothing Coq could resolve
 		mod := name[:i]
+		if in.Prog.imported[mod] && !libraryModules()[mod] {
+			stuck("reference %s not found: the required module %s has no such definition", name, mod)
+		}
 		if !in.Prog.requires()[mod] && !libraryModules()[mod] {
 			stuck("reference %s not found: the file requires no module %s and the GooseLang library has none", name, mod)
 		}
